@@ -46,7 +46,7 @@ func (swisscard2) Generate(r *rand.Rand, o Opts) *Statement {
 	q := func(s string) string { return csvField(s, ',', true) }
 	for i := 0; i < n; i++ {
 		day += cal.Day(r.Intn(3))
-		amt := randCents(r)
+		amt := randCentsOrZero(r, st)
 		if amt.V >= 10000000 {
 			amt = Cents(1 + amt.V%10000000) // no group separator is known for this format
 		}
